@@ -672,6 +672,8 @@ func childMain(args []string) int {
 					}
 					if delta > 256<<20 {
 						needRestart = true // checked after this unit's verdicts
+					} else if delta > 16<<20 {
+						runtime.GC() // free the big block now so that the next one reuses its address space
 					}
 					if delta > bnd {
 						violated[li] = true
